@@ -134,7 +134,7 @@ def reset_ghost(ex, env):
 
 contract(L + 'LogicalLinkController.collect', 'C10',
          dict(self=Obj(L + 'LogicalLinkController', lock=Lock(), sec=None,
-                       cfg=DictOf({'send-miu': Int(128, 2175), 'send-agf': Bool()}),
+                       cfg=DictOf({'send-miu': Int(128, 2175), 'recv-miu': Int(128, 2175), 'send-agf': Bool()}),
                        sap=ListOf(SAPM)),
               delay=None),
          name='C10/collect', setup=reset_ghost,
